@@ -198,6 +198,15 @@ GUARDS = [
     (['C09'], 'session_keeps_totals_across_files', 'src/session.cc', r'std::size_t\s+session_t::read_data\s*\(', [
         'xact_count += journal->read(parsing_context, HANDLER(hashes_).hash_type, false);',
         'journal->clear_xdata();']),
+    (['C09'], 'deferred_posting_flag', 'src/textual.cc', r'post_t\s*\*\s*instance_t::parse_post\s*\(', [
+        "else if (*p == '<' && *(e - 1) == '>') { post->add_flags(POST_DEFERRED); p++; e--; }"]),
+    (['C09'], 'deferred_postings_are_held', 'src/xact.cc', r'bool\s+xact_base_t::finalize\s*\(\s*\)\s*\{', [
+        'if (post->has_flags(POST_DEFERRED)) { if (!post->amount.is_null()) post->account->add_deferred_post(id(), post); } else { post->account->add_post(post); }']),
+    (['C09'], 'deferred_postings_released_at_end_of_file', 'src/textual.cc', r'std::size_t\s+journal_t::read_textual\s*\(', [
+        'instance.parse();', 'master->apply_deferred_posts();']),
+    (['C09'], 'deferred_postings_released_in_full', 'src/account.cc', r'void\s+account_t::apply_deferred_posts\s*\(\s*\)\s*\{', [
+        'if (deferred_posts) { foreach (deferred_posts_map_t::value_type& pair, *deferred_posts) { foreach (post_t * post, pair.second) post->account->add_post(post); } deferred_posts = none; }',
+        'foreach (const accounts_map::value_type& pair, accounts) pair.second->apply_deferred_posts();']),
 ]
 
 
